@@ -80,9 +80,13 @@ structure Variant where
   dotCheck : Bool
   /-- `Rewrite` sets `X-Connecting-Ip` and `X-Request-Id` again from the inbound request. -/
   resetInRewrite : Bool
+  /-- `Rewrite` deletes `Connection` and `Upgrade` from the outgoing request (third `fix:` commit). -/
+  dropUpgrade : Bool
 
-def Variant.fixed : Variant := { dotCheck := true, resetInRewrite := true }
-def Variant.pinned : Variant := { dotCheck := false, resetInRewrite := false }
+def Variant.fixed : Variant := { dotCheck := true, resetInRewrite := true, dropUpgrade := true }
+def Variant.pinned : Variant := { dotCheck := false, resetInRewrite := false, dropUpgrade := false }
+/-- the tree after the first two `fix:` commits: protocol upgrades were still passed on. -/
+def Variant.upgradeForwarding : Variant := { dotCheck := true, resetInRewrite := true, dropUpgrade := false }
 
 /-- `shouldProxy(method, urlPath)`. -/
 def shouldProxyV (v : Variant) (method path : Str) : Bool :=
@@ -165,6 +169,88 @@ answers 400 itself.  Other forms (`*`, absolute and authority form) are not mode
 the model starts from the parsed path. -/
 def parseTarget (t : Str) : Option Str :=
   if t.any badTargetByte then none else unescape (rawPath t)
+
+/-! ### every form of request target: `url.ParseRequestURI` as `net/http`'s `readRequest` calls it -/
+
+def mCONNECT : Str := ['C', 'O', 'N', 'N', 'E', 'C', 'T']
+def httpSlashSlash : Str := ['h', 't', 't', 'p', ':', '/', '/']
+
+def isAlpha (c : Char) : Bool := ('a' ≤ c && c ≤ 'z') || ('A' ≤ c && c ≤ 'Z')
+def isSchemeTail (c : Char) : Bool := c.isDigit || c == '+' || c == '-' || c == '.'
+
+/-- `url.getScheme`: `some (scheme, rest)`, `none` for the error "missing protocol scheme".  `acc` is
+the scheme read so far, reversed (empty exactly at index 0). -/
+def getSchemeGo (whole : Str) : Str → Str → Option (Str × Str)
+  | _, [] => some ([], whole)
+  | acc, c :: r =>
+    if isAlpha c then getSchemeGo whole (c :: acc) r
+    else if isSchemeTail c then (if acc = [] then some ([], whole) else getSchemeGo whole (c :: acc) r)
+    else if c = ':' then (if acc = [] then none else some (acc.reverse, r))
+    else some ([], whole)
+
+def getScheme (t : Str) : Option (Str × Str) := getSchemeGo t [] t
+
+/-- the authorities that are modelled: `host` of letters, digits, `.` and `-` (possibly empty) with
+an optional `:port` of digits.  Userinfo, IP literals in brackets and percent-escapes in the host
+have their own validation in `net/url`; for them the model starts from the parsed path. -/
+def simpleAuthority (a : Str) : Bool :=
+  (a.takeWhile (· ≠ ':')).all (fun c => isAlpha c || c.isDigit || c == '.' || c == '-') &&
+    ((a.dropWhile (· ≠ ':')).drop 1).all Char.isDigit
+
+inductive TargetForm
+  /-- `net/http` answers 400 itself -/
+  | refused
+  /-- an authority outside `simpleAuthority` -/
+  | unmodelled
+  /-- `URL.Path` is `*` (`star`) or empty (an opaque URL such as `http:x`, or no path after the
+  authority) -/
+  | noPath (star : Bool)
+  /-- the path-and-query part `/q` of an origin-form or absolute-form target -/
+  | origin (q : Str)
+  deriving DecidableEq
+
+/-- `url.parse(rawURL, viaRequest = true)` after the scheme has been split off. -/
+def classifyRest (scheme rest : Str) : TargetForm :=
+  match rawPath rest with
+  | '/' :: '/' :: a =>
+    if scheme ≠ [] then
+      if simpleAuthority (a.takeWhile (· ≠ '/')) then
+        match a.dropWhile (· ≠ '/') with
+        | [] => .noPath false
+        | '/' :: q => .origin q
+        | _ :: _ => .refused
+      else .unmodelled
+    else .origin ('/' :: a)
+  | '/' :: q => .origin q
+  | _ => if scheme ≠ [] then .noPath false else .refused
+
+/-- the form of a request target.  (`CONNECT host:port` is parsed as `http://host:port`.) -/
+def classify (m t : Str) : TargetForm :=
+  let t' := if m = mCONNECT && !startsSlash t then httpSlashSlash ++ t else t
+  if t'.any badTargetByte then .refused
+  else if t' = [] then .refused
+  else if t' = ['*'] then .noPath true
+  else match getScheme t' with
+    | none => .refused
+    | some sr => classifyRest sr.1 sr.2
+
+inductive Parsed
+  | refused
+  | unmodelled
+  | path (p : Str)
+  deriving DecidableEq
+
+/-- `URL.Path` of the request the handler receives for the request target `t` of a request with
+method `m`, for every form of target. -/
+def parseAnyTarget (m t : Str) : Parsed :=
+  match classify m t with
+  | .refused => .refused
+  | .unmodelled => .unmodelled
+  | .noPath star => .path (if star then ['*'] else [])
+  | .origin q =>
+    match parseTarget ('/' :: q) with
+    | none => .refused
+    | some p => .path p
 
 /-! ### net.SplitHostPort / netutil.SplitHost -/
 
@@ -257,6 +343,8 @@ def hXForwardedHost : Str := ['X', '-', 'F', 'o', 'r', 'w', 'a', 'r', 'd', 'e', 
 def hXForwardedProto : Str := ['X', '-', 'F', 'o', 'r', 'w', 'a', 'r', 'd', 'e', 'd', '-', 'P', 'r', 'o', 't', 'o']
 def hUserAgent : Str := ['U', 's', 'e', 'r', '-', 'A', 'g', 'e', 'n', 't']
 def hConnection : Str := ['C', 'o', 'n', 'n', 'e', 'c', 't', 'i', 'o', 'n']
+def hUpgrade : Str := ['U', 'p', 'g', 'r', 'a', 'd', 'e']
+def sUpgradeLower : Str := ['u', 'p', 'g', 'r', 'a', 'd', 'e']
 
 /-- The headers a client could use to claim another address. -/
 def forwardingNames : List Str :=
@@ -276,15 +364,36 @@ def connTokens (h : Hdrs) : List Str :=
 /-- `removeHopByHopHeaders` (library contract). -/
 def removeHopByHop (h : Hdrs) : Hdrs := hdelAll hopHeaders (hdelAll (connTokens h) h)
 
+/-- `httpguts.HeaderValuesContainsToken(h["Connection"], "Upgrade")`: some comma-separated element
+of some `Connection` value is, after trimming spaces and tabs, ASCII-case-insensitively `upgrade`. -/
+def asksUpgrade (h : Hdrs) : Bool :=
+  (((vals hConnection h).flatMap splitComma).map trimWS).any (fun t => t.map Char.toLower == sUpgradeLower)
+
+/-- `upgradeType(h)` of `net/http/httputil`: the protocol the client wants to switch to, empty when
+it asks for none. -/
+def upgradeType (h : Hdrs) : Str := if asksUpgrade h then hget hUpgrade h else []
+
+/-- `ascii.IsPrint`. -/
+def isPrint (s : Str) : Bool := s.all (fun c => ' ' ≤ c && c ≤ '~')
+
+/-- after the hop-by-hop removal `ReverseProxy` puts the protocol switch back (library contract). -/
+def reAddUpgrade (up : Str) (h : Hdrs) : Hdrs :=
+  if up = [] then h else hset hUpgrade up (hset hConnection hUpgrade h)
+
+/-- the last step of the `rewrite` closure: no protocol switch is passed on. -/
+def dropUpgradeHdrs (v : Variant) (h : Hdrs) : Hdrs :=
+  if v.dropUpgrade then hdel hUpgrade (hdel hConnection h) else h
+
 /-- `ReverseProxy.ServeHTTP` up to and including `Rewrite` (library contract + the `rewrite`
 closure of `linkedIPHandler`), header part. -/
 def proxyHeaders (v : Variant) (ua : Str) (inH : Hdrs) : Hdrs :=
-  let h := removeHopByHop inH
+  let h := reAddUpgrade (upgradeType inH) (removeHopByHop inH)
   let h := hdel hXForwardedProto (hdel hXForwardedHost (hdel hXForwardedFor (hdel hForwarded h)))
   let h := hset hUserAgent ua h
-  if v.resetInRewrite then
-    hset hXRequestID (hget hXRequestID inH) (hset hXConnectingIP (hget hXConnectingIP inH) h)
-  else h
+  dropUpgradeHdrs v
+    (if v.resetInRewrite then
+      hset hXRequestID (hget hXRequestID inH) (hset hXConnectingIP (hget hXConnectingIP inH) h)
+    else h)
 
 /-! ### the handler -/
 
@@ -298,6 +407,10 @@ inductive Resp
   | notFound
   | robots
   | err500
+  /-- `ReverseProxy` refuses the request before `Rewrite` (the client asks to switch to a protocol
+  whose name is not printable ASCII) and calls the error handler of `linkedIPHandler`, which writes
+  nothing: an empty answer, the backend is not contacted. -/
+  | proxyErr
   | proxied (path : Str) (hdrs : Hdrs)
   deriving DecidableEq
 
@@ -317,7 +430,8 @@ def serveV (v : Variant) (e : Env) (r : Req) : Resp :=
     | none => .err500
     | some ip =>
       let h := hset hXRequestID e.reqID (hset hXConnectingIP ip h)
-      .proxied (joinPath e.base r.path) (proxyHeaders v e.ua h)
+      if isPrint (upgradeType h) then .proxied (joinPath e.base r.path) (proxyHeaders v e.ua h)
+      else .proxyErr
   else if r.path = robotsPath then .robots
   else .notFound
 
